@@ -15,18 +15,31 @@ fn entries_json(t: &T) -> Value {
     })
 }
 
+/// Every second query goes through `find_into` with a reusable buffer that still holds the hits of a
+/// query on ANOTHER tree (the documented use of the buffer: it is cleared by the callee).
 fn finds(log: &mut Log, t: &T, qs: &[(i64, i64)]) {
     let qj: Vec<Value> = qs.iter().map(|q| json!([q.0, q.1])).collect();
+    let other: T = vec![(0i64..1000i64, 900001u32), (-1000i64..5i64, 900002u32)].into_iter().collect();
     log.call("finds", json!({"qs": qj}), || {
+        let mut buf = Vec::new();
         let res: Vec<Value> = qs
             .iter()
-            .map(|q| {
-                Value::Array(
-                    t.find(q.0..q.1)
-                        .iter()
-                        .map(|e| json!([e.interval().start, e.interval().end, *e.data()]))
-                        .collect(),
-                )
+            .enumerate()
+            .map(|(i, q)| {
+                if i % 2 == 1 {
+                    other.find_into(-5i64..5i64, &mut buf);
+                    t.find_into(q.0..q.1, &mut buf);
+                    Value::Array(
+                        buf.iter().map(|e| json!([e.interval().start, e.interval().end, *e.data()])).collect(),
+                    )
+                } else {
+                    Value::Array(
+                        t.find(q.0..q.1)
+                            .iter()
+                            .map(|e| json!([e.interval().start, e.interval().end, *e.data()]))
+                            .collect(),
+                    )
+                }
             })
             .collect();
         json!({"res": res})
@@ -61,7 +74,7 @@ pub fn drive(log: &mut Log) {
     let reps = log.opts.n(1, 6);
     let mut sizes: Vec<usize> = vec![];
     for _ in 0..reps {
-        sizes.extend(1..=70usize);
+        sizes.extend(0..=70usize);
     }
     let nrand = log.opts.n(30, 400);
     let mut rs = Rng::new(seed, 72, 0);
@@ -111,6 +124,12 @@ pub fn drive(log: &mut Log) {
         }
         if !okk {
             continue;
+        }
+        if n == 0 {
+            // an empty tree can be indexed and queried: no hits, and the reusable buffer is cleared
+            lo = 0;
+            hi = 6;
+            log.oblige("empty_tree_indexed_and_queried");
         }
         if rng.chance(1, 3) {
             finds(log, &t, &[(lo, hi)]);
